@@ -681,6 +681,23 @@ def canon_block(block, in_loop=False, is_loop_body=False):
         elif isinstance(st, ast.ClassDef):
             st.body = canon_block(st.body)
         out.append(st)
+    # a final `return E` after an if whose branches partly return on their own is carried into
+    # the branches that reach it (every path then ends in its own return)
+    if len(out) >= 2 and isinstance(out[-1], ast.Return) and isinstance(out[-2], ast.If) \
+            and _has_return([out[-2]]) and not _always_jumps([out[-2]]):
+        tail_ret = out[-1]
+
+        def sink_ret(block):
+            if _always_jumps(block):
+                return block
+            if block and isinstance(block[-1], ast.If) and _has_return([block[-1]]):
+                block[-1].body = sink_ret(block[-1].body)
+                block[-1].orelse = sink_ret(block[-1].orelse)
+                return block
+            return block + [copy.deepcopy(tail_ret)]
+        out[-2].body = sink_ret(out[-2].body)
+        out[-2].orelse = sink_ret(out[-2].orelse)
+        out = out[:-1]
     # G: guard followed by more statements -> if/else
     for i, st in enumerate(out):
         if isinstance(st, ast.If) and not st.orelse and _always_jumps(st.body) \
@@ -2515,6 +2532,58 @@ def module_constants(tree):
                 elts=[_Subst(m).visit(copy.deepcopy(node.elt)) for m in maps],
                 ctx=ast.Load()), node)
 
+        def visit_FunctionDef(self, node):
+            # a local bound once to a display of constants and only read: written out where a
+            # comprehension runs over it
+            counts, vals = {}, {}
+            for n in ast.walk(node):
+                if isinstance(n, ast.Name) and isinstance(n.ctx, (ast.Store, ast.Del)):
+                    counts[n.id] = counts.get(n.id, 0) + 1
+                if isinstance(n, ast.Assign) and len(n.targets) == 1 \
+                        and isinstance(n.targets[0], ast.Name) \
+                        and isinstance(n.value, (ast.Tuple, ast.List)) and n.value.elts \
+                        and all(isinstance(e, ast.Constant) for e in n.value.elts):
+                    vals[n.targets[0].id] = n.value
+            params = {a.arg for a in node.args.args + node.args.kwonlyargs}
+            local = {k: v for k, v in vals.items() if counts.get(k) == 1 and k not in params
+                     and not any(isinstance(a, ast.Attribute) and isinstance(a.value, ast.Name)
+                                 and a.value.id == k for a in ast.walk(node))}
+            if local:
+                for c in [n for n in ast.walk(node) if isinstance(n, ast.comprehension)]:
+                    if isinstance(c.iter, ast.Name) and c.iter.id in local:
+                        c.iter = copy.deepcopy(local[c.iter.id])
+            return self.generic_visit(node)
+
+        def visit_Call(self, node):
+            # all(E(x) for x in <display>) is the conjunction of the E(x), any(...) their
+            # disjunction (python evaluates them in order and stops at the same point)
+            self.generic_visit(node)
+            if isinstance(node.func, ast.Name) and node.func.id in ("all", "any") \
+                    and len(node.args) == 1 and not node.keywords \
+                    and isinstance(node.args[0], (ast.GeneratorExp, ast.ListComp, ast.List)):
+                a = node.args[0]
+                if isinstance(a, ast.List):
+                    elts = list(a.elts) if isinstance(node.args[0], ast.List) and False else None
+                else:
+                    maps = self._rows(a)
+                    elts = None if maps is None else [
+                        _Subst(m).visit(copy.deepcopy(a.elt)) for m in maps]
+                def boolean(e):
+                    return isinstance(e, ast.Compare) or (
+                        isinstance(e, ast.UnaryOp) and isinstance(e.op, ast.Not)) or (
+                        isinstance(e, ast.BoolOp) and all(boolean(v) for v in e.values)) or (
+                        isinstance(e, ast.Call) and isinstance(e.func, ast.Name)
+                        and e.func.id in ("isinstance", "bool", "callable", "hasattr"))
+                if elts and not all(boolean(e) for e in elts):
+                    elts = None         # the value of `a and b` is an operand, not a bool
+                if elts and len(elts) >= 2:
+                    op = ast.And() if node.func.id == "all" else ast.Or()
+                    return ast.copy_location(ast.BoolOp(op=op, values=elts), node)
+                if elts and len(elts) == 1:
+                    return ast.copy_location(ast.Call(func=ast.Name(id="bool", ctx=ast.Load()),
+                                                      args=elts, keywords=[]), node)
+            return node
+
         def visit_Assign(self, node):
             # a, b, c = (E(k) for k in <table>): the generator is consumed at once
             if len(node.targets) == 1 and isinstance(node.targets[0], (ast.Tuple, ast.List)) \
@@ -2593,10 +2662,18 @@ def _record_values(call, fields):
     return vals if seen == set(fields) else None
 
 
+def _is_replace(e, name):
+    return isinstance(e, ast.Call) and isinstance(e.func, ast.Attribute) \
+        and e.func.attr == "_replace" and isinstance(e.func.value, ast.Name) \
+        and e.func.value.id == name and not e.args \
+        and all(k.arg is not None for k in e.keywords)
+
+
 def split_records(fn, classes):
     if not classes:
         return
     defs, other = {}, set()
+    replaces = {}
     parents = {}
     for n in ast.walk(fn):
         for ch in ast.iter_child_nodes(n):
@@ -2616,12 +2693,23 @@ def split_records(fn, classes):
                     and par.value.func.id in classes \
                     and _record_values(par.value, classes[par.value.func.id]) is not None:
                 defs.setdefault(n.id, []).append(par)
+            elif isinstance(par, ast.Assign) and len(par.targets) == 1 \
+                    and par.targets[0] is n and _is_replace(par.value, n.id):
+                replaces.setdefault(n.id, []).append(par)
             else:
                 other.add(n.id)
         elif isinstance(n.ctx, ast.Load):
             if not (isinstance(par, ast.Attribute) and par.value is n
                     and isinstance(par.ctx, ast.Load)):
                 other.add(n.id)
+            elif par.attr == "_replace":
+                # only as  X = X._replace(field=value, ...)
+                call = parents.get(id(par))
+                asg = parents.get(id(call))
+                if not (isinstance(asg, ast.Assign) and len(asg.targets) == 1
+                        and isinstance(asg.targets[0], ast.Name)
+                        and asg.targets[0].id == n.id and _is_replace(asg.value, n.id)):
+                    other.add(n.id)
         elif isinstance(n.ctx, ast.Del) and isinstance(par, ast.Delete):
             pass                        # `del record`: deletes the fields
         else:
@@ -2637,13 +2725,31 @@ def split_records(fn, classes):
         bad = False
         for n in ast.walk(fn):
             if isinstance(n, ast.Attribute) and isinstance(n.value, ast.Name) \
-                    and n.value.id == name and n.attr not in fields:
+                    and n.value.id == name and n.attr not in fields \
+                    and n.attr != "_replace":
+                bad = True
+        for r in replaces.get(name, []):
+            if any(k.arg not in fields for k in r.value.keywords):
                 bad = True
         if bad:
             continue
         repl = {id(d): [ast.copy_location(ast.Assign(
             targets=[ast.Name(id=f"{name}__{f}", ctx=ast.Store())], value=v), d)
             for f, v in _record_values(d.value, fields)] for d in dl}
+        for r in replaces.get(name, []):
+            # X = X._replace(f=v): the new values are computed, then the fields take them
+            tmps = [(k.arg, f"{name}__{k.arg}__new{next(_counter)}", k.value)
+                    for k in r.value.keywords]
+            if len(tmps) == 1:
+                repl[id(r)] = [ast.copy_location(ast.Assign(
+                    targets=[ast.Name(id=f"{name}__{tmps[0][0]}", ctx=ast.Store())],
+                    value=tmps[0][2]), r)]
+            else:
+                repl[id(r)] = [ast.copy_location(ast.Assign(
+                    targets=[ast.Name(id=t, ctx=ast.Store())], value=v), r)
+                    for _f, t, v in tmps] + [ast.copy_location(ast.Assign(
+                        targets=[ast.Name(id=f"{name}__{f_}", ctx=ast.Store())],
+                        value=ast.Name(id=t, ctx=ast.Load())), r) for f_, t, _v in tmps]
 
         def rewrite(block):
             out = []
@@ -2935,7 +3041,8 @@ def private_objects(tree):
                     continue
                 if isinstance(sub, ast.FunctionDef) and not sub.decorator_list \
                         and sub.args.args and sub.args.args[0].arg == "self" \
-                        and (not sub.name.startswith("__") or sub.name == "__init__"):
+                        and (not sub.name.startswith("__")
+                             or sub.name in ("__init__", "__call__")):
                     meths[sub.name] = sub
                 else:
                     ok = False
@@ -3032,11 +3139,13 @@ def private_objects(tree):
                 continue
             attrs = [n for n in ast.walk(F) if isinstance(n, ast.Attribute)
                      and isinstance(n.value, ast.Name) and n.value.id == X]
-            if len(attrs) != len(occ) - 1:
+            dcalls = [n for n in ast.walk(F) if isinstance(n, ast.Call)
+                      and isinstance(n.func, ast.Name) and n.func.id == X]
+            if len(attrs) + len(dcalls) != len(occ) - 1:
                 continue            # the object is used as a whole somewhere
             mcalls = [n for n in ast.walk(F) if isinstance(n, ast.Call)
                       and isinstance(n.func, ast.Attribute) and n.func in attrs]
-            called = {c.func.attr for c in mcalls}
+            called = {c.func.attr for c in mcalls} | ({"__call__"} if dcalls else set())
             fields = {t.attr for m in meths.values() for st in ast.walk(m)
                       if isinstance(st, (ast.Assign, ast.AugAssign, ast.AnnAssign))
                       for t in (st.targets if isinstance(st, ast.Assign) else [st.target])
@@ -3095,6 +3204,9 @@ def private_objects(tree):
             for c in mcalls:
                 c.args = [ast.Name(id=obj, ctx=ast.Load())] + c.args
                 c.func = ast.Name(id=hname(cname, c.func.attr), ctx=ast.Load())
+            for c in dcalls:
+                c.args = [ast.Name(id=obj, ctx=ast.Load())] + c.args
+                c.func = ast.Name(id=hname(cname, "__call__"), ctx=ast.Load())
             init = ast.Expr(value=ast.Call(
                 func=ast.Name(id=hname(cname, "__init__"), ctx=ast.Load()),
                 args=[ast.Name(id=obj, ctx=ast.Load())] + a.value.args,
